@@ -10,6 +10,14 @@ TRUSTED_BASE = [
 ASSUMPTIONS = [
     "the configured allocator returns max_align_t-aligned, non-overlapping objects (as C requires of calloc/malloc)",
     "callers respect the documented preconditions encoded in each contract's requires clause",
+    "callee contracts used with --replace-call-with-contract are assumed at the call site; each is either enforced against the real callee in another unit (listed under that function's name) or "
+    "abstracts a container / libc / kernel object: abstract iterators hand out every element exactly once in order (established for the real iterators by the container units, bounded for map and BST), "
+    "regexec / strcmp-on-the-reserved-prefix / regcomp answer a ghost truth value, pthread primitives act on a ghost lock word, epoll/timerfd/signalfd/inotify/eventfd are ghost descriptor owners",
+    "allocation failure is modelled only where a unit says so (stub failure mask); in units that replace the allocator by a contract or a counting stub (loops under a loop contract may not "
+    "allocate or release under DFCC) a release is recorded, not performed",
+    "units run with --no-propagation (ctx.recv_pill_real, ctx.recv_oneshot_real) work around a CBMC 6.11 simplifier bug on unions of pointers (DESIGN.md 9.2); in ps.subscribe_real memcpy of the "
+    "opaque compiled pattern is skipped by a stub",
+    "machine integers are bit-precise (no mathematical-integer abstraction); ghost counters are size_t and are assumed not to wrap within one call (bounded by the stated size limits in each requires clause)",
 ]
 
 PROPS = {}
